@@ -150,7 +150,7 @@ func (h *histRun) step(r roundIn) {
 		var raw []byte
 		if o.Raw != nil {
 			raw = o.Raw
-		} else if o.Honest && r.Seq > 1 {
+		} else if o.Honest && !o.Scripted && r.Seq > 1 {
 			var err error
 			raw, err = h.honestObservation(r, o)
 			if err != nil {
@@ -251,8 +251,14 @@ func (h *histRun) step(r roundIn) {
 	for id, d := range r.Target {
 		tgt[id] = d.def()
 	}
-	h.rounds = append(h.rounds, fmt.Sprintf("{| rd_inst := %s; rd_seq := %d; rd_prev := %s; rd_target := %s; rd_retire := %s; rd_aos := %s; rd_valid := %s; rd_refused := %s; rd_out := %s; rd_rep := %s; rd_retirement := %s; rd_reports := %s |}",
-		coqNat(r.Inst), r.Seq, prevTerm, coqDefs(tgt), coqBool(r.Retire), coqList(obsTerms), coqList(validTerms), coqBool(honestErr != ""), outTerm, repKind, repRet, coqList(repTerms)))
+	scriptedRound := false
+	for _, o := range r.Obs {
+		if o.Honest && o.Scripted {
+			scriptedRound = true
+		}
+	}
+	h.rounds = append(h.rounds, fmt.Sprintf("{| rd_inst := %s; rd_seq := %d; rd_prev := %s; rd_target := %s; rd_scripted := %s; rd_retire := %s; rd_aos := %s; rd_valid := %s; rd_refused := %s; rd_out := %s; rd_rep := %s; rd_retirement := %s; rd_reports := %s |}",
+		coqNat(r.Inst), r.Seq, prevTerm, coqDefs(tgt), coqBool(scriptedRound), coqBool(r.Retire), coqList(obsTerms), coqList(validTerms), coqBool(honestErr != ""), outTerm, repKind, repRet, coqList(repTerms)))
 	h.outs = append(h.outs, rec)
 }
 
@@ -713,6 +719,9 @@ func cmdHistory(seed int64, n int, out, replay, tier string) {
 			cs = append(cs, histCase(in, "replay"))
 		}
 	} else {
+		for _, d := range directedHistories() {
+			cs = append(cs, histCase(d.in, "directed", d.name))
+		}
 		r := rand.New(rand.NewSource(seed))
 		maxRounds, maxF := 12, 2
 		if tier == "thorough" {
